@@ -68,6 +68,10 @@ def check_C02(c):
         k2b = dict(base, MinRank=3, MaxRank=3, MaxDim=3, MaxDimHi=3, FullRank=0, Depth=1, WithT=False, Ctors={S("C")})
         cases = c.tlc("MC_slice", "slice-r3", k2b, inv)
         c.replay("slice-r3", cases, dtypes="float64,uint8,string", pals="ident")
+    # (b') longer axes and larger steps on rank 1-2 (one axis over the complete space): the entry count of a stepped range
+    kw = dict(base, MinRank=1, MaxRank=2, MaxDim=6 if q else 7, MaxDimHi=6 if q else 7, FullRank=1, Depth=1, WithT=False, MaxStep=4 if q else 5)
+    cases = c.tlc("MC_slice", "slice-wide", kw, inv)
+    c.replay("slice-wide", cases, dtypes="float64,int8", pals="ident", rotate=1 if q else 0)
     # (c) nested slicing (slice of slice of transpose) to depth 3 over the palette
     k3 = dict(base, MinRank=1, MaxRank=2 if q else 3, MaxDim=3, MaxDimHi=3, FullRank=0, Depth=3, WithT=True, MaxStep=1)
     cases = c.tlc("MC_slice", "slice-nested", k3, inv)
@@ -184,6 +188,10 @@ def check_C13(c):
     ap = dict(MinRank=1, MaxRank=3, MaxDim=3, MaxDimHi=2, FullRank=2, MaxStep=2, Ctors={S("C"), S("F")}, Depth=1 if q else 2, WithT=True)
     cases = c.tlc("MC_ap", "ap-refine", ap, ["TypeOK", "Refines", "RejectsAlike", "WindowHolds", "DeviationIsReal", "IterRefines", "Emit"])
     c.replay("ap-refine", cases, dtypes="float64,int8,string" if q else "sizes", pals="ident", rotate=1 if q else 0)
+    # (c') longer axes and larger steps (the calculators round the number of entries of a stepped range)
+    sl = dict(MinRank=1, MaxRank=2, MaxDim=6 if q else 7, MaxDimHi=6 if q else 7, FullRank=1, Depth=1, WithT=False, Ctors={S("C")}, MaxStep=4 if q else 5)
+    cases = c.tlc("MC_slice", "slice-calc-wide", sl, ["TypeOK", "Emit"])
+    c.replay("slice-calc-wide", cases, dtypes="int32", pals="ident", extra=["-calc"])
     # (d) repetition and concatenation: the argument spaces of C10 against Shape.Repeat / Shape.Concat
     for name, k in assemble_jobs(q):
         if name.startswith("asm-stack"):
@@ -212,7 +220,7 @@ LAYS2 = LAYS + ("ColT", "StepT", "TCol", "TClone", "TView")     # composite layo
 def elem_consts(q, kinds, forms=("TT", "TS", "ST"), laya=LAYS2, layb=LAYS, modes=("safe",), layd=("C",), mismatch=True, **kw):
     k = dict(MinRank=0, MaxRank=3 if q else 4, MaxDim=3, MaxDimHi=2, HiRank=3 if q else 4,
              Kinds={S(x) for x in kinds}, Forms={S(x) for x in forms}, LayA={S(x) for x in laya}, LayB={S(x) for x in layb},
-             Modes={S(x) for x in modes}, LayD={S(x) for x in layd}, ShapeMismatch=mismatch, Chain=False)
+             Modes={S(x) for x in modes}, LayD={S(x) for x in layd}, ShapeMismatch=mismatch, Chain=False, ScalarTensors=False)
     k.update(kw)
     return k
 
@@ -223,7 +231,7 @@ PALS_ARITH = "ident,signed,edge,zerodiv,nonfinite"
 
 def check_C06(c):
     q = c.quick
-    cases = c.tlc("MC_elem", "elem-arith", elem_consts(q, ["Arith"], Chain=True), ELEM_INV)
+    cases = c.tlc("MC_elem", "elem-arith", elem_consts(q, ["Arith"], Chain=True, ScalarTensors=True), ELEM_INV)
     c.replay("elem-arith", cases, dtypes="numeric,string,bool", pals=PALS_ARITH, rotate=8 if q else 0,
              extra=["-ops", "all", "-entries", "func,method"] + (["-palrotate", "3"] if q else []))
     c.rep.rule = ("TLC enumerates the STRUCTURE of elementwise arithmetic: shapes of rank 0-4 x {tensor-tensor, tensor-scalar, scalar-tensor} "
@@ -268,7 +276,7 @@ def check_C07(c):
 
 def check_C11(c):
     q = c.quick
-    k = elem_consts(q, ["Cmp"], modes=("safe", "unsafe", "reuse"), layd=("C",))
+    k = elem_consts(q, ["Cmp"], modes=("safe", "unsafe", "reuse"), layd=("C",), ScalarTensors=True)
     cases = c.tlc("MC_elem", "elem-cmp", k, ELEM_INV)
     c.replay("elem-cmp", cases, dtypes="all", pals="ident,signed,edge,nonfinite", rotate=8 if q else 0,
              extra=["-ops", "all", "-entries", "func,method"] + (["-palrotate", "2"] if q else []))
@@ -281,7 +289,7 @@ def check_C11(c):
 
 def check_C12(c):
     q = c.quick
-    k = elem_consts(q, ["Unary"], forms=("TS",), layb=("C",), modes=("safe", "unsafe", "reuse", "incr"), layd=("C",), mismatch=False)
+    k = elem_consts(q, ["Unary"], forms=("TS",), laya=LAYS2 + ("F", "FCol"), layb=("C",), modes=("safe", "unsafe", "reuse", "incr"), layd=("C",), mismatch=False)
     cases = c.tlc("MC_elem", "elem-unary", k, ELEM_INV)
     c.replay("elem-unary", cases, dtypes="all", pals="ident,signed,edge,nonfinite,zerodiv", rotate=8 if q else 0,
              extra=["-ops", "all"] + (["-palrotate", "3"] if q else []))
@@ -434,6 +442,11 @@ def check_C16(c):
     r = run_tlc(c.scr, "MC_views", cfgp, cases)
     c.rep.add_tlc("f-views", r)
     c.replay("f-views", cases, dtypes="all", pals="ident", rotate=2 if q else 0)
+    # serialisation of column-major tensors (also masked ones)
+    k = dict(MinRank=1, MaxRank=3, MaxDim=3, MaxDimHi=2, HiRank=3, Lays={S(x) for x in FLAYS},
+             Formats={S(x) for x in ("gob", "npy", "csv", "pb", "fb")}, WithMasks=True)
+    cases = c.tlc("MC_io", "f-io", k, ["TypeOK", "Emit"])
+    c.replay("f-io", cases, dtypes="float64,int8,uint16,complex64,string", pals="ident,signed", rotate=2 if q else 0, extra=(["-palrotate", "1"] if q else []))
     # mixed-order Copy
     k = dict(MinRank=1, MaxRank=3, MaxDim=3, MaxDimHi=2, HiRank=3, Lays={S("C"), S("F"), S("FT")})
     cases = c.tlc("MC_copy", "f-copy", k, ["TypeOK", "Emit"])
@@ -449,7 +462,7 @@ def check_C20(c):
     # corpora (TLC runs once per corpus; every configuration replays the same behaviours against the same Level-1 result)
     lay = ("C", "T", "Col", "Step")
     corp = []
-    k = elem_consts(q, ["Arith", "FMA"], laya=lay, layb=("C", "T", "Col"), modes=("safe", "unsafe", "reuse", "incr"), layd=("C", "Col"),
+    k = elem_consts(q, ["Arith", "FMA"], laya=lay, layb=("C", "T", "Col"), modes=("safe", "unsafe", "reuse", "incr", "reuseA", "reuseB"), layd=("C", "Col"),
                     mismatch=False, MinRank=1, MaxRank=2 if q else 3, MaxDim=3, HiRank=3)
     corp.append(("cfg-arith", "MC_elem", k, ELEM_INV, ["-ops", "add,sub,mul,div,pow,mod", "-entries", "func,method"]))
     k = dict(MaxDim=2 if q else 3, MaxRankT=2, LayA={S(x) for x in ("C", "T", "Col")}, LayB={S(x) for x in ("C", "T", "Col")}, LayD={S("C")}, Chain=False,
@@ -460,7 +473,7 @@ def check_C20(c):
     corp.append(("cfg-trans", "MC_trans", k, ["TypeOK", "Emit"], []))
     k = dict(MinRank=0, MaxRank=3, MaxDim=3, MaxDimHi=2, HiRank=3, Ctors={S("C")}, ViewDepth=1, Mode=S("flat"), Lays={S("C")})
     corp.append(("cfg-iter", "MC_iter", k, ["TypeOK", "Emit"], []))
-    k = {"MaxRank": 3, "MaxDim": 3, "MaxDim4": 2, "Ctors": {S("C")}, "Rich": False}
+    k = {"MaxRank": 3, "MaxDim": 3, "MaxDim4": 2, "Ctors": {S("C")}, "Rich": False, "Deep": False}
     corp.append(("cfg-addr", "MC_addr", k, ["TypeOK", "Emit"], []))
     configs = [(("verif",), ""), (("verif",), "f64"), (("verif",), "f32"),
                (("verif", "noasm"), ""), (("verif", "noasm"), "f64"), (("verif", "noasm"), "f32"),
@@ -524,13 +537,13 @@ def check_C17(c):
         log("replay %s: %d executions, %d divergences" % (name, stats.get("execs", 0), len(divs)))
 
     lays = {S("C"), S("T"), S("Col")}
-    for fam in ("arith", "cmp", "unary", "reduce", "maskedarg"):
+    for fam in ("arith", "cmp", "unary", "reduce", "reduce4", "maskedarg"):
         cases = c.tlc("MC_interp", "interp-" + fam, dict(ShapeId=S("q" if q else "t"), Lays=lays, Family=S(fam)), ["TypeOK", "Emit"])
         rp("interp-" + fam, cases, dtypes="numeric", pals="interp", extra=["-entries", "func,method"])
     # breadth for the measured coverage: masking predicates, typed getters/setters, native conversions, Apply/unary maths
     cases = c.tlc("MC_mask", "cov-pred", mask_consts(True, "pred"), ["TypeOK", "Emit"])
     rp("cov-pred", cases, dtypes="all", pals="ident")
-    k = {"MaxRank": 2, "MaxDim": 2, "MaxDim4": 2, "Ctors": {S("C")}, "Rich": False}
+    k = {"MaxRank": 2, "MaxDim": 2, "MaxDim4": 2, "Ctors": {S("C")}, "Rich": False, "Deep": False}
     cases = c.tlc("MC_addr", "cov-getset", k, ["TypeOK", "Emit"])
     rp("cov-getset", cases, dtypes="all", pals="ident")
     W = {S(x) for x in ("Memset", "Zero")}
@@ -607,6 +620,9 @@ def check_C19(c):
     k = dict(MinRank=1, MaxRank=3, MaxDim=3, MaxDimHi=2, HiRank=3, LayA={S("C"), S("T"), S("Col")}, Kinds={S("Reduce"), S("Arg")})
     cases = c.tlc("MC_reduce", "hist-reduce", k, ["TypeOK", "Emit"])
     c.replay("hist-reduce", cases, dtypes="float64", pals="ident", extra=["-ops", "all"])
+    # safe unary operations / Apply on masked tensors: the operand (and its caller-owned mask) stay as they are
+    cases = c.tlc("MC_mask", "hist-maskunary", mask_consts(True, "unary"), ["TypeOK", "Emit"])
+    c.replay("hist-maskunary", cases, dtypes="float64,int32", pals="ident", extra=["-ops", "neg,apply,square"])
     k = dict(MaxDim=2, MaxRankT=3, LayA={S("C")}, LayB={S("C")}, LayD={S("C")}, Chain=False, Modes={S("safe")}, Kinds={S("TensorMul")})
     cases = c.tlc("MC_linalg", "hist-tensormul", k, ["TypeOK", "Emit"])
     c.replay("hist-tensormul", cases, dtypes="float64", pals="ident", extra=["-entries", "func,method"])
@@ -741,15 +757,16 @@ def check_C18(c):
             out, _ = pp.communicate()
             rcode = -9
             out += "\nPANIC op=(timeout): the run did not finish\n" if ("PANIC op=" in out or "NONDETERMINISTIC" in out or "DATA RACE" in out) else ""
-        if rcode not in (0,) and "WARNING: DATA RACE" not in out and "PANIC op=" not in out:
+        if rcode not in (0,) and "WARNING: DATA RACE" not in out and "PANIC op=" not in out and "fatal error: concurrent map" not in out:
             raise Infra("conc monitor failed (exit %d): %s" % (rcode, out[-2000:]))
         m2 = re.search(r"(monitor|stress): .*nondeterministic=(\d+)", out)
         nrace = out.count("WARNING: DATA RACE")
-        observed = out.count("PANIC op=") + out.count("NONDETERMINISTIC") + out.count("SHARED-CHANGED")
+        fatal = out.count("fatal error: concurrent map")      # the runtime kills the process: unsynchronised map access
+        observed = out.count("PANIC op=") + out.count("NONDETERMINISTIC") + out.count("SHARED-CHANGED") + fatal
         if not m2 and not nrace and not observed:
             raise Infra("conc monitor produced no summary: " + out[-2000:])
         nd = int(m2.group(2)) if m2 else out.count("NONDETERMINISTIC") + out.count("SHARED-CHANGED")
-        nd += out.count("PANIC op=")
+        nd += out.count("PANIC op=") + out.count("fatal error: concurrent map")
         c.rep.execs += 1
         c.rep.calls += 1
         c.rep.nontrivial += 1
@@ -806,6 +823,7 @@ def check_C15(c):
                                    ("through", "sizes", "ident", []),
                                    ("ops", "numeric", "ident,signed", ["-ops", "add,sub,mul,div,min,max"]),
                                    ("arg", "ordered", "ident,signed", []),
+                                   ("unary", "float64,int16,uint8", "ident,signed", ["-ops", "neg,apply,square,abs"]),
                                    ("iter", "float64,uint16", "ident", [])):
         cases = c.tlc("MC_mask", "mask-" + mode, mask_consts(q, mode), inv)
         c.replay("mask-" + mode, cases, dtypes=dts, pals=pals, rotate=(2 if q else 0), extra=extra + (["-oprotate", "2"] if q and extra else []))
